@@ -220,6 +220,7 @@ def run(F, R, tier):
     R.guard(_index_spaces, F, R)
     R.guard(_selectors, F, R)
     R.guard(_goal_plumbing, F, R)
+    R.guard(_fit_survives, F, R, FW)
 
     # ---- R6 default constants -------------------------------------------------------------------
     R.rule("R6", "the default SM constants of gm2_constants.hpp are read only by constructors / default "
@@ -516,3 +517,54 @@ def _goal_plumbing(F, R):
             n += 1
             R.check("R9", bool(fwd), "%s forwards its precision goal" % f["name"].split("::")[-1], F.loc(f),
                     "no conversion routine receives this function's (precision, max_iterations)", key="R9|fwd|" + f["name"].split("::")[-1])
+
+
+# fitting routine -> (mass matrix functions whose eigenvalues it fits to pole masses, what the property names)
+FITS = {
+    "convert_Mu_M1_M2": (("get_mass_matrix_Chi", "get_mass_matrix_Cha"), "chargino / bino-like neutralino masses (mu, M1, M2)"),
+    "convert_ml2": (("get_mass_matrix_SvmL",), "muon-sneutrino mass (msl(2,2))"),
+    "convert_me2": (("get_mass_matrix_Sm",), "right-handed smuon mass (mse(2,2))"),
+}
+
+
+def _fit_survives(F, R, FW):
+    R.rule("R10", "once a sector has been fitted to its pole masses, no later statement of convert_to_onshell overwrites a "
+                  "Lagrangian parameter that enters that sector's mass matrix, unless the sector is fitted again afterwards "
+                  "(otherwise the final spectrum misses the pole mass without any warning)", 3)
+    fs = [f for f in F.fns("gm2calc::MSSMNoFV_onshell::convert_to_onshell") if len(f["params"]) == 2]
+    if len(fs) != 1:
+        R.soft_broken("R10: convert_to_onshell(precision, max_iterations) not found")
+        return
+    f = fs[0]
+    stmts = f["body"].get("c", [])
+    cls = "gm2calc::MSSMNoFV_onshell_mass_eigenstates::"
+
+    def callee_names(s):
+        return [str(n.get("fn") or "").split("::")[-1] for n in walk(s) if is_call(n)]
+
+    for routine, (mms, what) in FITS.items():
+        idx = [i for i, s in enumerate(stmts) if routine in callee_names(s)]
+        if not idx:
+            R.soft_broken("R10: convert_to_onshell does not call %s" % routine)
+            continue
+        last_fit = idx[-1]
+        inputs = set()
+        for mm in mms:
+            g = F.fn(cls + mm)
+            inputs |= {x for x in FW.reads(g["body"])}
+        bad = None
+        for j in range(last_fit + 1, len(stmts)):
+            w = FW.writes(stmts[j]) & inputs
+            if w:
+                bad = (stmts[j], sorted(x.split("::")[-1] for x in w))
+                break
+        if bad is None:
+            R.ok("R10", "%s: nothing after the fit writes an input of %s" % (routine, "/".join(m[16:] for m in mms)), F.loc(f, stmts[last_fit]))
+        else:
+            st, w = bad
+            who = [c for c in callee_names(st) if c.startswith(("convert_", "calculate_", "set_"))][:1] or callee_names(st)[:1]
+            R.fail("R10", "%s then %s" % (routine, who[0] if who else "statement"), F.loc(f, st),
+                   "%s, called after %s fitted the %s, overwrites %s, which enter(s) %s; the sector is not fitted again, so the "
+                   "final spectrum can miss the pole mass by more than the requested precision without a warning"
+                   % (who[0] if who else "a statement", routine, what, ", ".join(w), "/".join(mms)),
+                   key="R10|%s|%s" % (routine, who[0] if who else "stmt"))
